@@ -780,6 +780,42 @@ fn ps_plain(s: &u16) -> Value {
     json!(*s)
 }
 
+
+/// the link-wrapped scripted actors of an "orl" system
+pub fn orl_actors(sys: &SysJ) -> Vec<ActorWrapper<OrlScript>> {
+    sys.scripts
+        .iter()
+        .enumerate()
+        .map(|(i, sc)| ActorWrapper::with_default_timeout(OrlScript {
+            sends: sc.iter().map(|e| (Id::from(e.dst as usize), e.msg)).collect(),
+            ignore_even: sys.ignore_even.get(i).cloned().unwrap_or(false),
+            replies: sys.replies.get(i).map(|v| v.iter().map(|r| (r.on, Id::from(r.dst as usize), r.msg)).collect()).unwrap_or_default(),
+        }))
+        .collect()
+}
+
+/// projection of the state of a link-wrapped scripted actor
+pub fn orl_ps(s: &StateWrapper<u16, OrlSt>) -> Value {
+                let (pending, last, handed, next) = s.verif_parts();
+                let mut p: Vec<(u64, usize, u16)> = pending.into_iter().map(|(q, d, m)| (q, usize::from(d), m)).collect();
+                p.sort();
+                let mut l: Vec<(usize, u64)> = last.into_iter().map(|(k, v)| (usize::from(k), v)).collect();
+                l.sort();
+                // `next` is the Debug rendering of the per-destination sequencers, "{Id(1): 3, ..}": the integers pair up
+                let nums: Vec<u64> = next
+                    .split(|c: char| !c.is_ascii_digit())
+                    .filter(|t| !t.is_empty())
+                    .filter_map(|t| t.parse().ok())
+                    .collect();
+                let mut nx: Vec<(u64, u64)> = nums.chunks(2).filter(|c| c.len() == 2).map(|c| (c[0], c[1])).collect();
+                nx.sort();
+                json!({"next": next, "next_seq": nx.into_iter().map(|(d, n)| json!({"dst": d, "n": n})).collect::<Vec<_>>(),
+                       "pending": p.into_iter().map(|(q, d, m)| json!({"seq": q, "dst": d, "m": m})).collect::<Vec<_>>(),
+                       "last": l.into_iter().map(|(k, v)| json!({"src": k, "seq": v})).collect::<Vec<_>>(),
+                       "handed": handed.handed.iter().map(|(sr, m)| json!({"src": usize::from(*sr), "m": m})).collect::<Vec<_>>(),
+                       "sent": handed.sent.iter().map(|(d, m)| json!({"dst": usize::from(*d), "m": m})).collect::<Vec<_>>()})
+}
+
 pub fn record_system(sysi: usize, sys: &SysJ, out: &mut dyn Write, real_counts: bool) {
     match sys.wrap.as_str() {
         "" | "none" => {
@@ -875,38 +911,9 @@ pub fn record_system(sysi: usize, sys: &SysJ, out: &mut dyn Write, real_counts: 
             record_graph(sysi, sys, &m, &|s: &usize| json!(*s), out, real_counts, None);
         }
         "orl" => {
-            let actors: Vec<ActorWrapper<OrlScript>> = sys
-                .scripts
-                .iter()
-                .enumerate()
-                .map(|(i, sc)| ActorWrapper::with_default_timeout(OrlScript {
-                    sends: sc.iter().map(|e| (Id::from(e.dst as usize), e.msg)).collect(),
-                    ignore_even: sys.ignore_even.get(i).cloned().unwrap_or(false),
-                    replies: sys.replies.get(i).map(|v| v.iter().map(|r| (r.on, Id::from(r.dst as usize), r.msg)).collect()).unwrap_or_default(),
-                }))
-                .collect();
+            let actors = orl_actors(sys);
             let m = configure(sys, actors);
-            let ps = |s: &StateWrapper<u16, OrlSt>| {
-                let (pending, last, handed, next) = s.verif_parts();
-                let mut p: Vec<(u64, usize, u16)> = pending.into_iter().map(|(q, d, m)| (q, usize::from(d), m)).collect();
-                p.sort();
-                let mut l: Vec<(usize, u64)> = last.into_iter().map(|(k, v)| (usize::from(k), v)).collect();
-                l.sort();
-                // `next` is the Debug rendering of the per-destination sequencers, "{Id(1): 3, ..}": the integers pair up
-                let nums: Vec<u64> = next
-                    .split(|c: char| !c.is_ascii_digit())
-                    .filter(|t| !t.is_empty())
-                    .filter_map(|t| t.parse().ok())
-                    .collect();
-                let mut nx: Vec<(u64, u64)> = nums.chunks(2).filter(|c| c.len() == 2).map(|c| (c[0], c[1])).collect();
-                nx.sort();
-                json!({"next": next, "next_seq": nx.into_iter().map(|(d, n)| json!({"dst": d, "n": n})).collect::<Vec<_>>(),
-                       "pending": p.into_iter().map(|(q, d, m)| json!({"seq": q, "dst": d, "m": m})).collect::<Vec<_>>(),
-                       "last": l.into_iter().map(|(k, v)| json!({"src": k, "seq": v})).collect::<Vec<_>>(),
-                       "handed": handed.handed.iter().map(|(sr, m)| json!({"src": usize::from(*sr), "m": m})).collect::<Vec<_>>(),
-                       "sent": handed.sent.iter().map(|(d, m)| json!({"dst": usize::from(*d), "m": m})).collect::<Vec<_>>()})
-            };
-            record_graph(sysi, sys, &m, &ps, out, real_counts, None);
+            record_graph(sysi, sys, &m, &orl_ps, out, real_counts, None);
         }
         w => panic!("wrap {w}"),
     }
